@@ -140,7 +140,7 @@ def rand_line(rng, times):
 
 class C12(Property):
     id = "C12"
-    lean_module = "RosuModel.Props.C12"
+    lean_module = "RosuModel.Props.C12Exact"   # imports Props/C12.lean (→ Props/C13.lean); namespace Rosu.C12
     namespace = "Rosu.C12"
     design_ref = "5.12"
     level_text = (
@@ -153,6 +153,14 @@ class C12(Property):
         "trace (rejected_line_no_trace); lists_strictly_sorted for any interleaving of lines; clamps (beat length, slider velocity, scroll speed only "
         "in taiko/mania and exactly 1 elsewhere, volume) as an invariant of every stored and pending point; line_fields_* (defaults of omitted trailing "
         "fields, timing_change default true and first-character test, sample set never None, volume in [0,100]); nan_only_inherited / nan_inherited_point. "
+        "Props/C12Exact.lean closes the NaN and reflexivity gaps: accepted_line_numbers / accepted_time_inRange (NO law: an accepted line's time passed the parser's "
+        "+-(2^31-1) range and NaN tests, a timing change has a non-NaN beat length, the speed multiplier is 100/-beat_len or 1); under the minimal hypothesis structure "
+        "NanLaws (six literals are numbers, 100/-b is a number for b < 0, NaN is not < 0, numbers are comparable, 0.1 <= 1 <= 10 and 0.01 <= 1; instance on a toy scalar "
+        "that HAS a NaN and parses 'nan': nanLaws_zn) stored_not_nan / clamps_ordinary (every stored time, beat length, slider velocity, scroll speed is not NaN and lies "
+        "in its range with the scalar's own <=) and nan_inherited_line (NaN beat length on an inherited line: accepted, ticks off, velocity and scroll speed exactly 1); "
+        "pending_eq_groups_finite (the sameGroup t t assumption discharged from the parser's range check, leaving FiniteSelfGroup: finite t has |t-t| < eps) and "
+        "pending_eq_groups_exact (under ExactScalar of Lemmas/ExactArith.lean with eps > 0; instance on the reals: finiteSelfGroup_real); "
+        "lists_strictly_sorted_time (strictly increasing in TIME with one point per time, under C13's TimeKeyOn on the accepted times). "
         "Model tied to the code on every run through the public TimingPoints::parse_general / parse_timing_points / From on exhaustive short sequences "
         "over the property's line alphabet in all four modes + random long sequences (omitted trailing fields, malformed fields, comments, whitespace, "
         "[General] lines) + the [General] parser alone + the number-codec differential; an independent transcription of the legacy group rule is evaluated "
@@ -169,16 +177,29 @@ class C12(Property):
         "line_fields_too_short", "parseTpRaw_ok",
         "nan_only_inherited", "nan_inherited_point",
         "inv_create", "inv_parseGeneral", "inv_applyTpLine",
+        # Props/C12Exact.lean
+        "scalarParse_inRange", "parseBeatLen_range", "accepted_line_numbers", "accepted_time_inRange", "clamp_not_nan", "clamp_nan_stays",
+        "speedMultiplier_not_nan", "between_of_within", "line_ordinary", "clamps_ordinary", "clamps_ordinary_fresh", "stored_not_nan",
+        "nan_inherited_point_one", "nan_inherited_line", "pending_eq_groups_finite", "sameGroup_exact", "finiteSelfGroup_of_exact",
+        "pending_eq_groups_exact", "lists_strictly_sorted_time", "nanLaws_zn", "clampLaws_zn", "finiteSelfGroup_real",
     ]
     partial_theorems = {
-        "pending_eq_groups": "law-dependent: assumes sameGroup t t (|t - t| < eps) for the times of accepted lines — true for finite IEEE values "
-                             "(accepted times are finite: parse_num bounds them by +-(2^31-1) and rejects NaN) but not kernel-checked for Float; "
-                             "shown satisfiable on the toy instance Z",
-        "clamps": "law-dependent: ClampLaws (lo <= hi, < irreflexive on the bounds) for the three literal ranges; the range is stated as "
-                  "not(y < lo) and not(hi < y), which is lo <= y <= hi only for non-NaN y — that stored values are not NaN is not proved "
-                  "(the implementation-level oracle checks 6 <= beat_len etc. with IEEE comparisons on every case)",
-        "nan_inherited_point": "law-dependent: NaN < 0 is false",
-        "lists_strictly_sorted": "ordering is by the total_cmp key, not by time (+0.0 / -0.0: finding F8, see C13)",
+        "pending_eq_groups / pending_eq_groups_finite / pending_eq_groups_exact":
+            "the reflexivity assumption is now discharged from the parser (accepted_time_inRange, no law: accepted times are within +-(2^31-1) and not NaN); what "
+            "remains is the single law FiniteSelfGroup (|t - t| < eps for such t), proved from ExactScalar with eps > 0 (reals) and on the toy Z, true for finite "
+            "IEEE values (t - t = +0) but not kernel-checked for Float (opaque)",
+        "clamps / clamps_ordinary / stored_not_nan":
+            "that stored values are not NaN and lie in lo <= y <= hi in the ordinary sense is now proved for every line sequence, law-free for times and for "
+            "'a timing point's raw beat length is not NaN', otherwise under NanLaws + TpClampLaws (facts about NaN, the literals and totality of < on numbers; "
+            "instance on a toy scalar with a NaN). IEEE f64 satisfies both law sets but that is not kernel-checked (the implementation-level oracle checks "
+            "6 <= beat_len etc. with IEEE comparisons on every case)",
+        "nan_inherited_point / nan_inherited_point_one / nan_inherited_line":
+            "law-dependent: 'NaN < 0 is false' (generate_ticks = false, multiplier 1) plus the literal comparisons not(1 < 0.1), not(10 < 1), not(1 < 0.01) for "
+            "'velocity and scroll speed are exactly 1'",
+        "lists_strictly_sorted / lists_strictly_sorted_time":
+            "lists_strictly_sorted is by the total_cmp key (holds for IEEE). 'Strictly increasing in TIME, one point per time' is proved under C13's TimeKeyOn S for "
+            "the set S of accepted times (lists_strictly_sorted_time); for IEEE f64 that hypothesis holds unless the accepted times contain both +0.0 and -0.0 "
+            "(NaN times are rejected by the parser: accepted_time_inRange) - finding F8 is the only way this clause fails; not kernel-checked for Float",
     }
     trusted_base = [
         "Lean 4.33.0 kernel",
@@ -190,8 +211,8 @@ class C12(Property):
     ]
     assumptions = [
         "theorems are about the Lean model; the model is compared with the implementation only on the generated line sequences of this run",
-        "law-dependent theorems (group refinement needs |t - t| < eps for accepted times; clamp ranges need lt to be irreflexive on the bounds; "
-        "the NaN line needs NaN < 0 to be false) take the law as an explicit hypothesis; the IEEE instance satisfies them but that is not kernel-checked",
+        "law-dependent theorems (group refinement needs |t - t| < eps for finite t: FiniteSelfGroup; clamp ranges need lt to be irreflexive on the bounds: TpClampLaws; "
+        "the NaN clauses and the ordinary-sense ranges need NanLaws) take the law as an explicit hypothesis structure; the IEEE instance satisfies them but that is not kernel-checked",
         "the implementation-level oracle judges sequences whose accepted lines are in its plain-number grammar and skips the rest (counted in the evidence)",
     ]
     nontrivial_rule = ("line sequences over the property's alphabet (exhaustive to a bounded length in all four modes, random beyond, with omitted "
